@@ -57,6 +57,29 @@ check('C16', 'property-based testing with adversarial generators around the nume
       'Exploration: tag-score rows are placed at log(beta) +/- {0.01, 0.5, 3} of the best tag and at ranks straddling pruning_size (also flattened rows, filter on/off) on grammars where some sentences are derivable only through an excluded tag; leaves must lie in may_admit, the score between the optima over must_admit and may_admit, and infeasibility over may_admit must give the placeholder.',
       PARSER_NOTE, 'DESIGN.md section 7 C16')
 
+check('C07', 'property-based testing with independent decoders: each of 12 encoders\' output is decoded by a reader written against the format and compared with the generated derivation (differential oracle), Hypothesis-generated trees/tokens/batches',
+      'Exploration: batches of grammar-licensed and arbitrary trees with awkward tokens are rendered in every format of the language (auto, auto_extended, xml, jigg_xml, conll, json (+decomposed categories), ptb, deriv, html, prolog, ja); an independent decoder per format (AUTO grammar, C&C XML, Jigg XML with offset/id audit, Prolog term reader with quoted-atom escapes, PTB s-expressions, the Japanese bank brace syntax, MathML nesting, the ASCII-art layout) must return the same words, shape, categories in the format\'s spelling, labels, head flags, token attributes, offsets and record numbering; conll heads are recomputed from the head flags.',
+      'The decoders and the per-format spelling tables (Jigg [f=true], Prolog lower-case/named punctuation, LangPro functor names) are the harness\'s statement of the formats. PTB cannot carry round brackets in words (known finding of C20); the ccg2lambda formats need NLTK.',
+      'DESIGN.md section 7 C07')
+check('C08', 'property-based round-trip testing: to_string(auto) -> file -> read_auto, re-print, conll fragments (Hypothesis-generated trees and tokens)',
+      'Exploration: licensed and arbitrary trees (either head direction per node, unary nodes) with tokens over printable non-blank text without backslashes are written as AUTO files of 1-3 sentences x 1-2 trees and read back: categories, shape, head flags, pos and escaped words must agree, the re-printed line must be identical and the conll last-column fragments must concatenate to the line.',
+      'Rule labels of read-back trees are judged by C12, not here.', 'DESIGN.md section 7 C08')
+check('C15', 'property-based round-trip testing + structural invariant audit: C&C XML / Jigg XML write -> read, id/offset audit of every Jigg sentence, ccg2lambda tree builder and token normaliser, capture of the XML handed to ccg2lambda',
+      'Exploration: n-best batches with XML-representable tokens are written as C&C XML (en) and Jigg XML (ja) and read back (categories, shape, token attributes, labels of derivable nodes, numbering); every Jigg <sentence> is audited (unique span ids, resolving references, tiling offsets, one root per ccg); build_ccg_tree must be isomorphic to the derivation with Jigg category spelling and rule labels; normalize_tokens output must be punctuation-free and a pure function of the token; the XML the printer hands to ccg2lambda.parse (captured by substitution) must use the rule vocabulary of the shipped semantic templates.',
+      'NLTK is absent: semantic composition itself is not run. Tokens that already start with an underscore are not judged.', 'DESIGN.md section 7 C15')
+check('C17', 'property-based testing against a reference model of the mask + exhaustive sweep of the shipped model files',
+      'Exploration: generated documents / category lists / dictionaries / score matrices: the output of apply_category_filters is compared cell by cell with a model computed on a copy (listed cells kept, unlisted cells of listed words set to the large negative value, other words and dependency scores untouched, tokens unchanged, both calling forms); exhaustive sweep: every category string occurrence of the shipped tables parses, round-trips and is hashable, every cat_dict.en category is in targets.en, and read_params on the three shipped configurations returns tables that find them.',
+      'read_params runs through a functional stand-in for allennlp Params backed by a mini-jsonnet loader (cross-checked against a literal scan).', 'DESIGN.md section 7 C17')
+check('C18', 'stateful property-based testing (Hypothesis RuleBasedStateMachine): render-live vs render-fresh-copy metamorphic relation over generated format sequences, snapshot invariant after every step',
+      'Exploration of histories: each machine holds one batch of parse results; every step renders it in a drawn format (all to_string formats of the language plus the element-tree encoders) and requires the output to equal that of a freshly rebuilt copy and the structural snapshot of the live batch (categories, labels, flags, token dicts) to be unchanged.',
+      'A rendering that raises is compared as an outcome; renderability itself is C19.', 'DESIGN.md section 7 C18')
+check('C19', 'property-based testing: totality over the generated label space + metamorphic relation [A, FAILED, B] vs [A, B] per format',
+      'Exploration: batches mixing derivations that cover every (label, symbol) the live rule functions return (shipped seen-rule pairs, shipped and synthetic unary tables; coverage measured in the evidence) with the placeholder obtained from a real failed parse are rendered in every format of the CLI choice lists (read from depccg.argparse at run time): no exception, and the records of the parsed sentences must not change when a failed sentence is added.',
+      'The two ccg2lambda formats need NLTK and are not rendered.', 'DESIGN.md section 7 C19')
+check('C20', 'property-based round-trip testing: ptb_of -> read_ptb, ja_of -> read_ccgbank (also with bank annotations added), prefix-truncation negative tests',
+      'Exploration: English trees printed as PTB lines and Japanese trees printed in the bank format are read back (categories, shape, words, rule symbols for ja; unary and binary nodes, bracket tokens); the Japanese line is also read after the harness decorates its categories with {I1} / _none annotations; every generated proper prefix of a PTB line must be rejected.',
+      'Words with round brackets cannot be carried by the PTB format (open known finding, excluded by construction and counted).', 'DESIGN.md section 7 C20')
+
 ALL = ['C%02d' % i for i in range(1, 21)]
 PENDING_REASON = 'check not built yet in this round (planned, see DESIGN.md section 7); not claimed until its command exists and is quiet on the unchanged tree'
 
